@@ -168,7 +168,13 @@ func (tb *ATable) RegisterPropertyCallback(
 		*cbListPtr = make([]PropertyCallback, 0, 10)
 	}
 
-	*cbListPtr = append(*cbListPtr, theNewCallback)
+	// Never append in place: a by-value copy of the owner (a Cell copied into a
+	// row, say) shares the backing array of this slice, so the copies would
+	// overwrite each other's later registrations in its spare capacity.
+	grown := make([]PropertyCallback, len(*cbListPtr)+1)
+	copy(grown, *cbListPtr)
+	grown[len(grown)-1] = theNewCallback
+	*cbListPtr = grown
 	return nil
 }
 
